@@ -15,7 +15,7 @@ import (
 func init() {
 	registerEngine("MP", []string{"M1", "P1", "P2"}, runEngineMP)
 	registerEngine("Q", []string{"Q1", "Q2", "Q3"}, runEngineQ)
-	registerEngine("S", []string{"S1", "S2", "S3"}, runEngineS)
+	registerEngine("S", []string{"S1", "S2", "S3", "S4"}, runEngineS)
 }
 
 // ---- M1 / P2 ------------------------------------------------------------------------------------------------------
@@ -745,6 +745,7 @@ func runEngineS(p *Prog, o *obls) {
 					o.ok("S1", key, p.Pos(fn.Pos()), fmt.Sprintf("%d counter update(s), each dominated by a test against the recorder's SSRC", n))
 				}
 			}
+			s4CoUpdate(p, o, fn, ss)
 			// ---- S2: loops over the packets of a compound are exhaustive
 			for _, l := range findRangeLoops(fn) {
 				st, ok := l.Slice.Type().Underlying().(*types.Slice)
@@ -870,4 +871,136 @@ func viaPhisOnly(p *Prog, v ssa.Value, target *ssa.Phi) bool {
 		return false
 	}
 	return walk(v)
+}
+
+// statsFieldPath renders the field path of an address inside the stats struct ("InboundRTPStreamStats.PacketsReceived").
+func statsFieldPath(addr ssa.Value) string {
+	var parts []string
+	for i := 0; i < 8; i++ {
+		fa, ok := addr.(*ssa.FieldAddr)
+		if !ok {
+			break
+		}
+		if f := fieldOfAddr(fa); f != nil {
+			parts = append([]string{f.Name()}, parts...)
+		}
+		addr = fa.X
+	}
+	return strings.Join(parts, ".")
+}
+
+// s4CoUpdate (rule S4): in a loop-free record* function, the integer counters that are accumulated (x = x + …) are
+// accumulated on the same paths: no path from the entry to a return adds to one of them and not to another. A recount
+// of the traffic counts each packet in all of them (a packet has at least its header bytes) or in none.
+func s4CoUpdate(p *Prog, o *obls, fn *ssa.Function, ss statsSpec) {
+	// loop-free?
+	idx := map[*ssa.BasicBlock]int{}
+	for i, b := range fn.Blocks {
+		idx[b] = i
+	}
+	for _, b := range fn.Blocks {
+		for _, s := range b.Succs {
+			if s.Dominates(b) {
+				return
+			}
+		}
+	}
+	ids := map[string]int{}
+	var names []string
+	acc := map[*ssa.Store]int{}
+	instrsOf(fn, func(in ssa.Instruction) {
+		st, ok := in.(*ssa.Store)
+		if !ok || !throughStatsStruct(st.Addr, ss.pkgPath) {
+			return
+		}
+		if b, ok := st.Val.Type().Underlying().(*types.Basic); !ok || b.Info()&types.IsInteger == 0 {
+			return
+		}
+		bo, ok := st.Val.(*ssa.BinOp)
+		if !ok || bo.Op != token.ADD {
+			return
+		}
+		self := false
+		for _, op := range []ssa.Value{bo.X, bo.Y} {
+			if u, ok := op.(*ssa.UnOp); ok && u.Op == token.MUL {
+				if addrRoot(u.X) == addrRoot(st.Addr) && statsFieldPath(u.X) == statsFieldPath(st.Addr) {
+					self = true
+				}
+			}
+		}
+		if !self {
+			return
+		}
+		k := statsFieldPath(st.Addr)
+		if _, ok := ids[k]; !ok {
+			if len(names) >= 5 {
+				return
+			}
+			ids[k] = len(names)
+			names = append(names, k)
+		}
+		acc[st] = ids[k]
+	})
+	if len(names) < 2 {
+		return
+	}
+	full := uint32(1)<<uint(len(names)) - 1
+	// state: set of subsets (bit i of the word = subset i is possible)
+	in := map[*ssa.BasicBlock]uint64{fn.Blocks[0]: 1}
+	var bad []string
+	// blocks of a reducible loop-free CFG in reverse post-order
+	var order []*ssa.BasicBlock
+	seen := map[*ssa.BasicBlock]bool{}
+	var dfs func(b *ssa.BasicBlock)
+	dfs = func(b *ssa.BasicBlock) {
+		seen[b] = true
+		for _, s := range b.Succs {
+			if !seen[s] {
+				dfs(s)
+			}
+		}
+		order = append(order, b)
+	}
+	dfs(fn.Blocks[0])
+	for i := len(order) - 1; i >= 0; i-- {
+		b := order[i]
+		st := in[b]
+		for _, ins := range b.Instrs {
+			if s, ok := ins.(*ssa.Store); ok {
+				if id, ok := acc[s]; ok {
+					var nst uint64
+					for sub := uint32(0); sub <= full; sub++ {
+						if st&(1<<sub) != 0 {
+							nst |= 1 << (sub | 1<<uint(id))
+						}
+					}
+					st = nst
+				}
+			}
+			if r, ok := ins.(*ssa.Return); ok {
+				for sub := uint32(1); sub < full; sub++ {
+					if st&(1<<sub) != 0 {
+						var has, lacks []string
+						for j, n := range names {
+							if sub&(1<<uint(j)) != 0 {
+								has = append(has, n)
+							} else {
+								lacks = append(lacks, n)
+							}
+						}
+						bad = append(bad, fmt.Sprintf("a path to the return at %s adds to %s but not to %s", p.instrPos(r), strings.Join(has, ", "), strings.Join(lacks, ", ")))
+					}
+				}
+			}
+		}
+		for _, s := range b.Succs {
+			in[s] |= st
+		}
+	}
+	key := funcKey(fn) + ":co-update"
+	if len(bad) > 0 {
+		o.bad("S4", key, p.Pos(fn.Pos()), strings.Join(dedupe(bad), "; ")+": the counters no longer describe the same set of packets")
+	} else {
+		o.ok("S4", key, p.Pos(fn.Pos()), fmt.Sprintf("the accumulated counters %s are updated on the same paths", strings.Join(names, ", ")))
+	}
 }
